@@ -45,7 +45,9 @@ RULE = ("pipelines of harness/pipegen.py (1..5 structural functions; every outpu
         "run(full_output=..), func(o)(...), map(parallel=False), map(executor=ThreadPoolExecutor), both also with "
         "output_names=<all outputs> (map then executes a subpipeline copy), and a process-pool smoke set (5 requests x "
         "first/middle/last invocation x every kind x explicit ProcessPoolExecutor / parallel=True / map_async, user "
-        "functions as non-importable closures); thorough adds "
+        "functions as non-importable closures), and a slow-earlier-element set (sync map and map_async on a 4-worker "
+        "thread pool, an earlier element of the failing function sleeps 0.4 s while the first/middle/last element "
+        "raises at once, every kind); thorough adds "
         "map(executor=ProcessPoolExecutor), map(parallel=True) with pipefunc's own pool, map_async with thread and "
         "process pools, and every kind for every invocation (quick rotates the kinds); + a few runs without failure; "
         "non-trivial = >= 2 invocations in the run; distinct by (pipeline/request, failing invocation, kind, entry)")
@@ -77,6 +79,7 @@ TRUSTED = ["Model/Failing.v + Model/FailingMap.v mirror handle_error / _execute_
            "harness/exc_types.py", "Model/MapRun.v building blocks and Model/MapDenote.v (C01)"]
 
 TIMEOUT_S = 40.0
+SLOW_DELAY_S = 0.4        # duration of a 'slow' invocation (cases of _gen_slow_earlier)
 # run folders / call logs / snapshot files: a RAM-backed directory when there is one (the root file system of the
 # sandbox needs ~3 ms per unlink), always removed
 TMP_BASE = "/dev/shm" if os.path.isdir("/dev/shm") and os.access("/dev/shm", os.W_OK) else None
@@ -211,7 +214,7 @@ def _map_call(pl, c, folder):
     if mode == "seq":
         pl.map(inputs, parallel=False, **kw)
     elif mode == "thread":
-        with ThreadPoolExecutor(3) as ex:
+        with ThreadPoolExecutor(4) as ex:
             pl.map(inputs, executor=ex, **kw)
     elif mode == "proc":
         with ProcessPoolExecutor(2) as ex:
@@ -220,7 +223,7 @@ def _map_call(pl, c, folder):
         pl.map(inputs, parallel=True, **kw)
     elif mode in ("athread", "aproc"):
         async def go():
-            with (ThreadPoolExecutor(3) if mode == "athread" else ProcessPoolExecutor(2)) as ex:
+            with (ThreadPoolExecutor(4) if mode == "athread" else ProcessPoolExecutor(2)) as ex:
                 r = pl.map_async(inputs, executor=ex, **kw)
                 return await r.task
 
@@ -267,7 +270,8 @@ def _run_map_body(c, tmp, limit):
     log = FileLog(os.path.join(tmp, "calls.log"))
     folder = os.path.join(tmp, "run")
     try:
-        pl = failsym.build_map(req, log, c["tgt"], c["exc"], local=bool(c.get("local")))
+        pl = failsym.build_map(req, log, c["tgt"], c["exc"], local=bool(c.get("local")),
+                               slow=c.get("slow") or (), delay=SLOW_DELAY_S)
     except Exception:  # noqa: BLE001
         return ["bad-case"]
     exc = None
@@ -280,7 +284,7 @@ def _run_map_body(c, tmp, limit):
             _map_call(pl, c, folder)
     except failsym.HarnessTimeout:
         return Err("Timeout")
-    except Exception as e:  # noqa: BLE001
+    except (Exception, asyncio.CancelledError) as e:  # noqa: BLE001  (CancelledError is a BaseException)
         exc = e
     lines = log.read()
     if not _effectively_sequential(c):
@@ -516,16 +520,57 @@ def _gen_pool_smoke(rng, n_req):
     return cases
 
 
+def _gen_slow_earlier(rng, n_req):
+    """An EARLIER element of the failing mapped function is still running (it sleeps SLOW_DELAY_S, decided by the
+    case) while a later element raises immediately: thread pool with 4 workers, sync map and map_async, middle and
+    last failing index with the delay, first failing index without, every exception kind.  The model is unchanged
+    (one task fails; it is the one reported, whatever completes when)."""
+    cases = []
+    done = tries = 0
+    while done < n_req and tries < 200 * n_req:
+        tries += 1
+        req = mapgen.gen_request(rng, max_funcs=2, max_size=3)
+        if mapgen.request_size(req) > 9:
+            continue
+        try:
+            gens, calls, _ = _probe_request(req)
+        except Exception:  # noqa: BLE001
+            continue
+        if len(calls) > 9:
+            continue
+        by_func = {}
+        for ln in calls:
+            by_func.setdefault(ln.split("(", 1)[0], []).append(ln)
+        fn, mine = max(by_func.items(), key=lambda kv: len(kv[1]))
+        if len(mine) < 3 or len(set(mine)) != len(mine):
+            continue
+        done += 1
+        for k, kind in enumerate(KINDS):
+            for mode in ("athread", "thread"):
+                for j in sorted({0, len(mine) // 2, len(mine) - 1}):
+                    r2 = json.loads(json.dumps(req))
+                    r2["storage"] = "dict" if (j + k) % 2 else "file_array"
+                    # the slow one: element 0 (k even) / the element just before the failing one (k odd)
+                    slow = [] if j == 0 else [mine[0] if k % 2 == 0 else mine[j - 1]]
+                    cases.append({"kind": "map", "req": r2, "gens": gens, "mode": mode, "tgt": mine[j], "ffn": fn,
+                                  "exc": kind, "ncalls": len(calls), "idx": calls.index(mine[j]),
+                                  "local": False, "slow": slow})
+    return cases
+
+
 def generate(rng, tier, mult):
     if tier == "quick":
         cases = _gen_pipe(rng, tier, 120 * mult)
         cases += _gen_map(rng, tier, 100 * mult, ["seq", "thread", "seqsub|threadsub"], max_calls=14,
                           shared_share=0.04)
         cases += _gen_pool_smoke(rng, 5 * mult)
+        cases += _gen_slow_earlier(rng, 1 * mult)
     else:
         cases = _gen_pipe(rng, tier, 220 * mult)
         cases += _gen_map(rng, tier, 38 * mult, ["seq", "thread", "proc", "procdefault", "athread", "aproc",
                                                   "seqsub", "threadsub"], max_calls=14, shared_share=0.03)
+        cases += _gen_pool_smoke(rng, 10 * mult)
+        cases += _gen_slow_earlier(rng, 4 * mult)
     return cases
 
 
@@ -536,7 +581,7 @@ def nontrivial_key(c):
     if c["kind"] == "pipe":
         return ("pipe", c["p"], c["o"], c["tgt"], c["exc"], c["entry"], c["full"])
     return ("map", c["req"]["funcs"], c["req"]["inputs"], c["req"]["storage"], c["mode"], c["tgt"], c["exc"],
-            bool(c.get("local")))
+            bool(c.get("local")), bool(c.get("slow")))
 
 
 def distribution(c):
@@ -549,6 +594,7 @@ def distribution(c):
         d["ngens"] = len(c["gens"])
         d["first_call"] = c["idx"] == 0
         d["local_funcs"] = bool(c.get("local"))
+        d["slow_earlier_element"] = bool(c.get("slow"))
     return d
 
 
